@@ -73,6 +73,14 @@ def run_case(cs):
         if r.internal:
             cs.skip("seal-internal-error")
             return
+    nested_now = [h for h in world.find_histories(root) if h != "." and "/" not in h and re.match(r"^[A-Za-z0-9_]+$", h)]
+    if nested_now and rng.random() < 0.2:
+        # the outer history is told to ignore the folder of a nested history (e.g. proxies): the nested history is still
+        # there and `info` on the outer folder still lists it
+        ig = rng.choice(nested_now)
+        r = drive.run("create", [root, "-h", "md5", "-i", ig + rng.choice(["", "/"])])
+        steps.append(f"create . -i {ig} => {r.exit}")
+        cs.count("outer_history_ignores_folder_of_nested_history")
     hists = world.find_histories(root)
     if hists == ["."] and rng.random() < 0.1:
         try:
